@@ -148,12 +148,26 @@ pub fn assemble<S>(
 {
     let mut assembly = AssemblyResult::new();
 
+    #[cfg(hlorenzi_customasm_verif)]
+    crate::verif::emit("asm_begin", vec![
+        ("budget", crate::verif::V::I(opts.max_iterations as i128)),
+        ("opt_static", crate::verif::V::B(opts.optimize_statically_known)),
+        ("opt_matcher", crate::verif::V::B(opts.optimize_instruction_matching)),
+        ("ndefines", crate::verif::V::I(opts.driver_symbol_defs.len() as i128)),
+        ("nfiles", crate::verif::V::I(root_filenames.len() as i128)),
+    ]);
+
     let mut run = || -> Result<(), ()>
     {
         assembly.ast = Some(parser::parse_many_and_resolve_includes(
             report,
             fileserver,
             root_filenames)?);
+
+        #[cfg(hlorenzi_customasm_verif)]
+        crate::verif::emit("parsed", vec![
+            ("nodes", crate::verif::V::I(assembly.ast.as_ref().unwrap().nodes.len() as i128)),
+        ]);
 
         assembly.decls = Some(decls::init(report)?);
 
@@ -191,6 +205,14 @@ pub fn assemble<S>(
                 assembly.decls.as_ref().unwrap(),
                 assembly.defs.as_mut().unwrap())?;
 
+            #[cfg(hlorenzi_customasm_verif)]
+            crate::verif::emit("prepass", vec![
+                ("consts", crate::verif::V::I(resolved_constants_count as i128)),
+                ("prev", crate::verif::V::I(prev_resolved_constants_count as i128)),
+                ("ifs", crate::verif::V::I(resolved_ifs_count as i128)),
+                ("nodes", crate::verif::V::I(assembly.ast.as_ref().unwrap().nodes.len() as i128)),
+            ]);
+
             if resolved_constants_count == prev_resolved_constants_count &&
                 resolved_ifs_count == 0
             {
@@ -206,6 +228,9 @@ pub fn assemble<S>(
             assembly.decls.as_ref().unwrap(),
             assembly.defs.as_ref().unwrap())?;
             
+        #[cfg(hlorenzi_customasm_verif)]
+        crate::verif::emit("ifs_checked", vec![]);
+
         defs::define_remaining(
             report,
             opts,
@@ -213,12 +238,18 @@ pub fn assemble<S>(
             assembly.defs.as_mut().unwrap(),
             assembly.decls.as_mut().unwrap())?;
 
+        #[cfg(hlorenzi_customasm_verif)]
+        crate::verif::emit("defined", vec![]);
+
         matcher::match_all(
             report,
             opts,
             assembly.ast.as_ref().unwrap(),
             assembly.decls.as_ref().unwrap(),
             assembly.defs.as_mut().unwrap())?;
+
+        #[cfg(hlorenzi_customasm_verif)]
+        crate::verif::emit("matched", vec![]);
 
         assembly.iterations_taken = Some(resolver::resolve_iteratively(
             report,
@@ -228,6 +259,12 @@ pub fn assemble<S>(
             assembly.decls.as_ref().unwrap(),
             assembly.defs.as_mut().unwrap(),
             opts.max_iterations)?);
+
+        #[cfg(hlorenzi_customasm_verif)]
+        crate::verif::emit("resolved", vec![
+            ("iters", crate::verif::V::I(assembly.iterations_taken.unwrap() as i128)),
+            ("errors", crate::verif::V::B(report.has_errors())),
+        ]);
 
         output::check_bank_overlap(
             report,
@@ -240,10 +277,18 @@ pub fn assemble<S>(
             assembly.decls.as_ref().unwrap(),
             assembly.defs.as_ref().unwrap())?);
 
+        #[cfg(hlorenzi_customasm_verif)]
+        crate::verif::emit("output_built", vec![
+            ("len", crate::verif::V::I(assembly.output.as_ref().unwrap().len() as i128)),
+        ]);
+
         check_unused_defines(
             report,
             opts,
             assembly.decls.as_ref().unwrap())?;
+
+        #[cfg(hlorenzi_customasm_verif)]
+        crate::verif::emit("defines_checked", vec![]);
 
         Ok(())
     };
@@ -257,6 +302,18 @@ pub fn assemble<S>(
             assert!(report.has_errors());
         }
     }
+
+    #[cfg(hlorenzi_customasm_verif)]
+    crate::verif::emit("asm_end", vec![
+        ("error", crate::verif::V::B(assembly.error)),
+        ("has_output", crate::verif::V::B(assembly.output.is_some())),
+        ("messages", crate::verif::V::I(report.len() as i128)),
+        ("iters", match assembly.iterations_taken
+        {
+            Some(i) => crate::verif::V::I(i as i128),
+            None => crate::verif::V::Null,
+        }),
+    ]);
 
     assembly
 }
